@@ -110,7 +110,12 @@ class IdentityLinearOperator(ConstantDiagLinearOperator):
         self: Float[LinearOperator, "... #M #N"],
         other: Union[Float[torch.Tensor, "... #M #N"], Float[LinearOperator, "... #M #N"]],
     ) -> Float[LinearOperator, "... M N"]:
-        return other
+        # elementwise product with the identity: only the diagonal of `other` survives
+        from linear_operator.operators.diag_linear_operator import DiagLinearOperator
+
+        diag = other._diagonal()
+        batch_shape = torch.broadcast_shapes(self.batch_shape, diag.shape[:-1])
+        return DiagLinearOperator(diag.expand(*batch_shape, diag.shape[-1]))
 
     def _permute_batch(self, *dims: int) -> LinearOperator:
         batch_shape = self.diag_values.permute(*dims, -1).shape[:-1]
